@@ -125,6 +125,44 @@ def splitBar : List String → List String × List String
   | "|" :: r => ([], r)
   | x :: r => let (a, b) := splitBar r; (x :: a, b)
 
+def parseCfgTok (c : Cfg) (t : String) : Option Cfg :=
+  match t with
+  | "ownership" => some { c with ownership := true }
+  | "noperms" => some { c with noPerms := true }
+  | "notimestamps" => some { c with noTimestamps := true }
+  | "fsync" => some { c with fsync := true }
+  | "linux=1" => some { c with linux := true }
+  | "linux=0" => some { c with linux := false }
+  | "reflink=auto" => some { c with reflink := .auto }
+  | "reflink=always" => some { c with reflink := .always }
+  | "reflink=never" => some { c with reflink := .never }
+  | _ => none
+
+def parseCfg : Cfg → List String → Option Cfg
+  | c, [] => some c
+  | c, t :: r => match parseCfgTok c t with
+    | some c' => parseCfg c' r
+    | none => none
+
+def parseFStep : String → Option FStep
+  | "chown" => some .chown | "setxattrs" => some .setxattrs | "chmod" => some .chmod
+  | "utimens" => some .utimens | "fsync" => some .fsync | _ => none
+
+def parseFCall (t : String) : Option FCall :=
+  match t.splitOn ":" with
+  | ["create"] => some .create
+  | ["data"] => some .data
+  | ["trunc", n] => n.toNat?.map .truncate
+  | ["clone", "1"] => some (.clone true)
+  | ["clone", "0"] => some (.clone false)
+  | ["fin", s] => (parseFStep s).map .fin
+  | _ => none
+
+def parseMeta (t : String) : Option FMeta :=
+  match (t.splitOn ":").map String.toNat? with
+  | [some m, some u, some g, some t] => some ⟨m, u, g, t, []⟩
+  | _ => none
+
 def answer (line : String) : String :=
   match (line.trimAscii.toString.splitOn " ").filter (· ≠ "") with
   | "merge" :: rest =>
@@ -210,6 +248,39 @@ def answer (line : String) : String :=
           | .fill n _ => "fill:" ++ showHex n)
       | none => "refused"
     | _, _, _ => "bad-op"
+  -- `monitor <cfg tokens…> | <len> <calls…>`: the per-file trace monitor
+  | "monitor" :: rest =>
+    let (cf, r2) := splitBar rest
+    match parseCfg {} cf, r2 with
+    | some c, len :: calls =>
+      match len.toNat?, parseAll parseFCall calls with
+      | some len, some calls => s!"ok {monitorFile c len calls}"
+      | _, _ => "bad-op"
+    | _, _ => "bad-op"
+  -- `finalise <cfg tokens…> | <src meta> <dst meta>` (mode:uid:gid:mtime) under Linux' chown
+  | "finalise" :: rest =>
+    let (cf, r2) := splitBar rest
+    match parseCfg {} cf, r2 with
+    | some c, [sm, dm] =>
+      match parseMeta sm, parseMeta dm with
+      | some sm, some dm =>
+        let r := finalise c sm linuxChownFx dm
+        s!"ok {r.mode}:{r.uid}:{r.gid}:{r.mtime}"
+      | _, _ => "bad-op"
+    | _, _ => "bad-op"
+  -- `node <kind> <mode> <rdev> <umask> <noclobber> <destexists> <destremovable>`
+  | ["node", k, mode, rdev, um, nc, ex, rm] =>
+    let kind : Option FileKind := match k with
+      | "fifo" => some .fifo | "sock" => some .socket | "chr" => some .chr | "blk" => some .blk | "other" => some .other
+      | "file" => some .file | "dir" => some .dir | "link" => some .symlink | _ => none
+    match kind, mode.toNat?, rdev.toNat?, um.toNat?, parseBool nc, parseBool ex, parseBool rm with
+    | some kind, some mode, some rdev, some um, some nc, some ex, some rm =>
+      let r := specialProgram ⟨kind, mode, rdev⟩ um nc ex rm
+      let calls := " ".intercalate (r.1.map fun | .probeDest => "probe" | .unlink => "unlink" | .mknod _ => "mknod")
+      match r.2 with
+      | some n => s!"ok {calls} | {k} {n.mode} {n.rdev}"
+      | none => s!"fail {calls}"
+    | _, _, _, _, _, _, _ => "bad-op"
   | ["sparse", blk, sz] =>
     match blk.toNat?, sz.toNat? with
     | some b, some s => s!"ok {probablySparse b s}"
